@@ -76,6 +76,9 @@ def run_stream(ctx, name, cases_path):
     model_path = cases_path + ".model"
     rc, err = ctx["run_lines"](ctx["vh"], [name, "run"], cases_path, impl_path)
     impl_crashed = rc != 0
+    if impl_crashed:
+        # run again with line-by-line flushing so that the output is complete up to the case that kills the process
+        rc, err = ctx["run_lines"](ctx["vh"], [name, "run"], cases_path, impl_path, dict(VH_FLUSH="1"))
     with open(impl_path, errors="replace") as f:
         impl = f.read().splitlines()
     model = None
@@ -104,7 +107,20 @@ def generate(ctx, name, extra=None):
         for l in corpus:
             f.write(l + "\n")
         f.flush()
-        p = subprocess.run([ctx["vh"], name, "gen", str(ctx["seed"]), ctx["tier"]] + (extra or []), stdout=f, env=ctx["env"])
+        p = subprocess.run([ctx["vh"], name, "gen", str(ctx["seed"]), ctx["tier"]] + (extra or []), stdout=f, stderr=subprocess.PIPE, env=ctx["env"])
+    if p.returncode != 0:
+        with open(cases_path, "w") as f:
+            for l in corpus:
+                f.write(l + "\n")
+            f.flush()
+            p = subprocess.run([ctx["vh"], name, "gen", str(ctx["seed"]), ctx["tier"]] + (extra or []), stdout=f, stderr=subprocess.PIPE, env=dict(ctx["env"], VH_FLUSH="1"))
+    if p.returncode != 0:
+        # a generator that dies leaves the property unexplored: never let that pass silently (generators that
+        # execute the library to choose applicable operations die when the library corrupts memory)
+        with open(cases_path) as f:
+            lines = f.read().splitlines()
+        ctx.setdefault("gen_failures", []).append(dict(key=f"{name}:generator-abort", case=(lines[-1] if lines else f"{name} <none>"),
+            detail=f"case generator exited with status {p.returncode} after {len(lines)} cases: {(p.stderr or b'').decode('utf-8', 'replace')[-300:]}"))
     return cases_path
 
 
@@ -1121,7 +1137,73 @@ class C18(Prop):
         res.notes.append("schedules explored per scenario: " + ", ".join(f"{k}={v}" for k, v in sorted(res.distribution.items())))
 
 
-REGISTRY = {"C05": C05(), "C18": C18(), "C08": C08(), "C07": C07(), "C03": C03(), "C02": C02(), "C20": C20(), "C09": C09(), "C10": C10(), "C14": C14(), "C12": C12()}
+# ------------------------------------------------------------------------------------------
+# C16
+
+class C16(Prop):
+    rule = ("operation histories over the real Value API (parse, clone, drop, take, clone of a member, as_array_mut/as_object_mut, push, insert, "
+            "pop, remove, values of one Deserializer/stream) replayed on the Lean reference-counting transition system: after every step the "
+            "representation of every live value (arena serial number and Arc strong count of every root node, strong count and members of every "
+            "owned container, via the verif hook) and the set of arenas released by that step must equal the model's; all drop orders "
+            "(permutations) after fixed derivations, random histories (1/4 of them with every clone and drop executed on another thread), and a "
+            "concurrent stress with barriers; non-trivial = the history shares an arena between at least two values")
+    trusted = ["std::sync::Arc, Vec and hashbrown/AHashMap own and drop their elements as documented (the model's containers)",
+               "the verif hook (Value::verif_shape, arena serial numbers, release log) reports the representation faithfully",
+               "byte balance by a counting allocator around the library calls; thread interleavings only by stress (atomic increments commute)"]
+    assumptions = ["documents of the histories have no duplicate keys (C15 covers those)", "keys are ASCII"]
+
+    def explore(self, ctx, res):
+        name = "c16"
+        cases_path = generate(ctx, name)
+        impl, model, crashed, err = run_stream(ctx, name, cases_path)
+        with open(cases_path) as f:
+            cases = f.read().splitlines()
+        if crashed or len(impl) != len(cases):
+            idx = min(len(impl), len(cases) - 1)
+            res.oracle_failures.append(dict(key="c16:process-abort", case=cases[idx],
+                                            detail=f"harness exited abnormally after {len(impl)} of {len(cases)} cases (double free / invalid access aborts the process): {err[-300:]}"))
+        n = min(len(impl), len(cases))
+        for i in range(n):
+            case = cases[i]
+            res.evaluations += 1
+            mode = case.split(" ")[1]
+            res.distribution["mode:" + mode] += 1
+            if len(res.samples) < 6 and i % max(1, n // 6) == 0:
+                res.samples.append({"case": case[:300], "impl": impl[i][:300], "model": (model[i][:300] if model and i < len(model) else None)})
+            if mode == "x":
+                res.nontrivial(case)
+                if impl[i] != "ok":
+                    res.oracle_failures.append(dict(key="C16|concurrent-sharers|" + impl[i].split("=")[0].split(":")[0], case=case, detail=impl[i][:300]))
+                continue
+            steps, _, tail = impl[i].partition(" content=")
+            F = ctx["parse_fields"]("content=" + tail)
+            if "#2" in steps or "#3" in steps:
+                res.nontrivial(case)
+            for op in case.split(" ")[2].split(";"):
+                res.distribution["op:" + op[0]] += 1
+            if steps.startswith("PANIC") or impl[i].startswith("PANIC"):
+                res.oracle_failures.append(dict(key="C16|panic", case=case, detail=impl[i][:200]))
+                continue
+            # direct oracle
+            if not tail.startswith("ok"):
+                res.oracle_failures.append(dict(key="C16|surviving-value-reads-differently", case=case, detail=tail[:300]))
+            if F.get("leak") != "0":
+                res.oracle_failures.append(dict(key="C16|memory-not-released-or-released-twice", case=case, detail=f"allocation balance {F.get('leak')} bytes after every value was dropped"))
+            released = sum(len([x for x in st.split("|")[1].split(",") if x]) for st in steps.split(";") if "|" in st) + int(F.get("released_at_end", "0") or 0)
+            if str(released) != F.get("created"):
+                res.oracle_failures.append(dict(key="C16|arenas-created-vs-released", case=case, detail=f"created {F.get('created')} released {released}"))
+            # correspondence
+            if model is not None:
+                if i >= len(model):
+                    res.model_disagreements.append(dict(key="c16:model-output-missing", case=case, detail=""))
+                elif model[i] != steps:
+                    a, b = steps.split(";"), model[i].split(";")
+                    k = next((k for k in range(min(len(a), len(b))) if a[k] != b[k]), min(len(a), len(b)))
+                    res.model_disagreements.append(dict(key="c16:representation-differs", case=case,
+                                                        detail=f"step {k}: impl {a[k] if k < len(a) else None} model {b[k] if k < len(b) else None}"))
+
+
+REGISTRY = {"C16": C16(), "C05": C05(), "C18": C18(), "C08": C08(), "C07": C07(), "C03": C03(), "C02": C02(), "C20": C20(), "C09": C09(), "C10": C10(), "C14": C14(), "C12": C12()}
 for _k, _v in REGISTRY.items():
     _v.pid = _k
 
